@@ -663,6 +663,12 @@ func (i *importer) importMessage(dbcMsg *dbc.Message) error {
 			return i.errorf(dbcExtMux, &NameError{Name: dbcExtMux.MultiplexorName, Err: ErrNotFound})
 		}
 
+		// the multiplexers are built from the last one to the first one: a multiplexor that is
+		// not placed before the multiplexer it selects is already built and would lose it
+		if muxIdx >= j {
+			return i.errorf(dbcExtMux, &StartBitError{StartBit: i.getSignalStartBit(dbcMuxSig), Err: ErrOutOfBounds})
+		}
+
 		muxedSigGroups[muxIdx] = append(muxedSigGroups[muxIdx], &importerSignal{
 			sig:    muxSig,
 			dbcSig: dbcMuxSig,
